@@ -1103,6 +1103,7 @@ pub fn explore(cfg: &ExploreCfg, findings: &Findings, deadline: Option<std::time
     st.states_per_level.push(1);
     let mut level = 0usize;
     let mut last_rate: Option<f64> = None;
+    let mut last_items = 0usize;
     st.fixpoint = false;
     while !frontier.is_empty() && level < cfg.max_len {
         if let Some(dl) = deadline {
@@ -1125,14 +1126,19 @@ pub fn explore(cfg: &ExploreCfg, findings: &Findings, deadline: Option<std::time
         // do not start a level that, at the rate measured on the previous one, cannot finish before the cap
         if let (Some(dl), Some(rate)) = (deadline, last_rate) {
             let remaining = dl.saturating_duration_since(std::time::Instant::now()).as_secs_f64();
-            if items.len() as f64 * rate > remaining * 1.5 {
+            if last_items >= 500 && items.len() as f64 * rate > remaining * 1.5 {
                 level -= 1;
                 break;
             }
         }
         let level_t0 = std::time::Instant::now();
         let timing = std::env::var("ZKV_TIMING").is_ok();
-        let done: Vec<Result<Option<(Judged, Option<Box<dyn Backend>>)>, String>> = par_map(&items, ncpu(), |_, &(ni, oi, kind)| {
+        // in-memory backends: threads of this process, cloning the live objects; persistent backend and RLN API:
+        // worker subprocesses replaying the history (thousands of sled databases do not scale inside one process)
+        let use_pool = std::env::var("ZKV_NO_POOL").is_err();
+        let local_idx: Vec<usize> = (0..items.len()).filter(|i| !use_pool || items[*i].2.cloneable()).collect();
+        let remote_idx: Vec<usize> = (0..items.len()).filter(|i| use_pool && !items[*i].2.cloneable()).collect();
+        let run_local = |&(ni, oi, kind): &(usize, usize, Kind)| -> Result<Option<(Judged, Option<Box<dyn Backend>>)>, String> {
             let node = &frontier[ni];
             let op = &cfg.ops[oi];
             let mut be: Box<dyn Backend> = match node.live.get(&kind).and_then(|b| b.boxed_clone()) {
@@ -1152,7 +1158,27 @@ pub fn explore(cfg: &ExploreCfg, findings: &Findings, deadline: Option<std::time
             }
             let keep = if kind.cloneable() && j.next.is_some() { Some(be) } else { None };
             Ok(Some((j, keep)))
-        });
+        };
+        let local_items: Vec<(usize, usize, Kind)> = local_idx.iter().map(|i| items[*i]).collect();
+        let local_done = par_map(&local_items, ncpu(), |_, it| run_local(it));
+        let remote_reqs: Vec<Value> = remote_idx.iter().map(|i| {
+            let (ni, oi, kind) = items[*i];
+            json!({"focus": cfg.focus.id(), "kind": kind.name(), "depth": cfg.depth, "positions": if cfg.full_obs { Value::Null } else { json!(cfg.positions) },
+                   "hist": hist_json(&frontier[ni].hist), "op": cfg.ops[oi].to_json(), "model": model_to_json(&frontier[ni].model)})
+        }).collect();
+        let remote_done = tree_pool().map(&remote_reqs);
+        let mut done: Vec<Option<Result<Option<(Judged, Option<Box<dyn Backend>>)>, String>>> = (0..items.len()).map(|_| None).collect();
+        for (k, r) in local_idx.iter().zip(local_done.into_iter()) {
+            done[*k] = Some(r);
+        }
+        for (k, r) in remote_idx.iter().zip(remote_done.into_iter()) {
+            let (ni, oi, _) = items[*k];
+            done[*k] = Some(match r {
+                Err(e) => Err(format!("worker failed on {} after {}: {e}", cfg.ops[oi].to_json(), hist_json(&frontier[ni].hist))),
+                Ok(v) => decode_judged(&v, &frontier[ni].model, &cfg.ops[oi]),
+            });
+        }
+        let done: Vec<Result<Option<(Judged, Option<Box<dyn Backend>>)>, String>> = done.into_iter().map(|d| d.unwrap_or_else(|| Err("item not executed".into()))).collect();
         // regroup per (node, operation)
         let mut expanded: Vec<Result<Vec<Step>, String>> = (0..frontier.len()).map(|_| Ok(vec![])).collect();
         {
@@ -1229,6 +1255,7 @@ pub fn explore(cfg: &ExploreCfg, findings: &Findings, deadline: Option<std::time
         }
         if !items.is_empty() {
             last_rate = Some(level_t0.elapsed().as_secs_f64() / items.len() as f64);
+            last_items = items.len();
         }
         st.max_depth = level;
         st.states_per_level.push(next_frontier.len() as u64);
@@ -1243,6 +1270,93 @@ pub fn explore(cfg: &ExploreCfg, findings: &Findings, deadline: Option<std::time
         }
     }
     Ok(st)
+}
+
+fn model_to_json(t: &IdealTree) -> Value {
+    json!({"leaves": t.leaves.iter().map(|(i, v)| json!([i, v.to_str_radix(10)])).collect::<Vec<_>>(),
+           "written": t.written.iter().map(|(i, w)| json!([i, w])).collect::<Vec<_>>(), "hwm": t.hwm})
+}
+fn model_from_json(v: &Value, depth: usize) -> Option<IdealTree> {
+    let mut t = IdealTree::new(depth);
+    for e in v["leaves"].as_array()? {
+        t.leaves.insert(e[0].as_u64()?, bdec(&e[1]));
+    }
+    for e in v["written"].as_array()? {
+        t.written.insert(e[0].as_u64()?, e[1].as_bool()?);
+    }
+    t.hwm = v["hwm"].as_u64()?;
+    Some(t)
+}
+
+fn tree_pool() -> &'static crate::explore::pool::Pool {
+    static POOL: std::sync::OnceLock<crate::explore::pool::Pool> = std::sync::OnceLock::new();
+    POOL.get_or_init(|| {
+        let p = crate::explore::pool::Pool::new(ncpu(), "tree");
+        // start every worker and let it load the key material once, so that the first level of a search is not
+        // timed with the start-up cost in it
+        let warm: Vec<Value> = (0..ncpu() * 2).map(|_| json!({"warm": true})).collect();
+        let _ = p.map(&warm);
+        p
+    })
+}
+
+fn encode_judged(j: &Judged, pre: &IdealTree, op: &TreeOp) -> Value {
+    let exp = model_step(pre, op);
+    let is_ok = j.outcome_class.ends_with(":ok");
+    let cands: Vec<IdealTree> = if is_ok { exp.ok.iter().cloned().collect() } else { exp.err.clone() };
+    let idx = j.next.as_ref().and_then(|n| cands.iter().position(|c| c == n));
+    json!({"owned": j.owned.iter().map(|d| json!({"key": d.key, "detail": d.detail, "case": d.case})).collect::<Vec<_>>(),
+           "off_model": j.off_model, "class": j.outcome_class, "next": idx.map(|i| json!({"ok": is_ok, "idx": i}))})
+}
+
+fn decode_judged(v: &Value, pre: &IdealTree, op: &TreeOp) -> Result<Option<(Judged, Option<Box<dyn Backend>>)>, String> {
+    if let Some(e) = v["error"].as_str() {
+        return Err(e.to_string());
+    }
+    if v["na"] == true {
+        return Ok(None);
+    }
+    let owned = v["owned"].as_array().cloned().unwrap_or_default().into_iter().map(|d| Discrepancy { key: d["key"].as_str().unwrap_or("").to_string(), case: d["case"].clone(), detail: d["detail"].as_str().unwrap_or("").to_string() }).collect();
+    let next = if v["next"].is_null() { None } else {
+        let exp = model_step(pre, op);
+        let cands: Vec<IdealTree> = if v["next"]["ok"] == true { exp.ok.iter().cloned().collect() } else { exp.err.clone() };
+        cands.get(v["next"]["idx"].as_u64().unwrap_or(0) as usize).cloned()
+    };
+    Ok(Some((Judged { owned, off_model: v["off_model"] == true, outcome_class: v["class"].as_str().unwrap_or("").to_string(), next }, None)))
+}
+
+/// `zkv --worker tree`: replays a history on a fresh backend, applies one operation, judges it
+pub fn worker_tree() -> i32 {
+    let seen: std::sync::Mutex<BTreeSet<(Kind, IdealTree)>> = std::sync::Mutex::new(BTreeSet::new());
+    crate::explore::pool::serve(|req| {
+        if req["warm"] == true {
+            let _ = fresh(Kind::Rln, 1);
+            std::thread::sleep(std::time::Duration::from_millis(30));
+            return json!({"na": true});
+        }
+        let focus = match req["focus"].as_str() { Some("C06") => Focus::C06, Some("C07") => Focus::C07, Some("C08") => Focus::C08, _ => Focus::C15 };
+        let kind = match req["kind"].as_str().and_then(Kind::from_name) { Some(k) => k, None => return json!({"error": "bad kind"}) };
+        let depth = req["depth"].as_u64().unwrap_or(1) as usize;
+        let hist: Vec<TreeOp> = req["hist"].as_array().map(|a| a.iter().filter_map(TreeOp::from_json).collect()).unwrap_or_default();
+        let op = match TreeOp::from_json(&req["op"]) { Some(o) => o, None => return json!({"error": "bad op"}) };
+        let (positions, full): (Vec<u64>, bool) = match req["positions"].as_array() {
+            Some(a) => (a.iter().filter_map(|x| x.as_u64()).collect(), false),
+            None => ((0..(1u64 << depth)).collect(), true),
+        };
+        // the model state before the operation is sent by the explorer; the backend gets there by replay
+        let model = match model_from_json(&req["model"], depth) { Some(m) => m, None => return json!({"error": "bad model"}) };
+        let mut be = match fresh(kind, depth) { Ok(b) => b, Err(e) => return json!({"error": e}) };
+        for h in &hist {
+            if let Outcome::Panic(p) = be.apply(h) { return json!({"error": format!("replay of an on-model history panicked: {p}")}); }
+        }
+        let outcome = be.apply(&op);
+        if outcome == Outcome::NotApplicable {
+            return json!({"na": true});
+        }
+        let cc = CaseCtx { focus, kind, depth, positions: &positions, full, hist: &hist, binding_seen: Some(&seen) };
+        let j = judge(&cc, &model, &op, &outcome, be.as_ref());
+        encode_judged(&j, &model, &op)
+    })
 }
 
 /// Replays one history on one backend, judging every step (used by --replay and by known findings).
